@@ -3,7 +3,7 @@
 #   demo fails with the patch and passes without; the relevant pinned tests give the same outcome set as on the clean tree.
 SRC=$1; NAME=$2
 WT=/tmp/confirm_$NAME
-TESTS="pySDC/tests/tests_core.py pySDC/tests/test_controllers pySDC/tests/test_sweepers pySDC/tests/test_convergence_controllers pySDC/tests/test_hooks pySDC/tests/test_helpers pySDC/tests/test_collocation.py pySDC/tests/test_Q_transfer.py pySDC/tests/test_transfer_classes pySDC/tests/test_datatypes pySDC/tests/test_problem.py pySDC/tests/test_problems pySDC/tests/test_2d_fd_accuracy.py"
+TESTS="pySDC/tests/tests_core.py pySDC/tests/test_controllers pySDC/tests/test_sweepers pySDC/tests/test_convergence_controllers pySDC/tests/test_hooks pySDC/tests/test_helpers pySDC/tests/test_collocation.py pySDC/tests/test_Q_transfer.py pySDC/tests/test_transfer_classes pySDC/tests/test_datatypes"
 git -C /repo worktree add -q --detach $WT HEAD || exit 9
 cd $WT
 export OMP_NUM_THREADS=1 OPENBLAS_NUM_THREADS=1
